@@ -43,9 +43,7 @@ def gen(seed, tier):
             cfl = "threading" if ctx == "thread-payload" else co_flavour
             cid = "caller-%s" % cfl
             if cid not in callers:
-                # queued coroutine callers are rare: with a trio caller they run into the start-up deadlock
-                # recorded as a known finding (execute-deadlock/startup-unqueue)
-                via = rng.choice(["queued", "adopt"]) if cfl == "threading" else ("queued" if rng.random() < 0.1 else "adopt")
+                via = rng.choice(["queued", "adopt"])
                 callers[cid] = {"id": cid, "flavour": cfl, "via": via, "steps": [], "caller": True}
             callers[cid]["steps"] += [["sleep", rng.choice([0.0, 0.1, 0.3])], ["execute", pid]]
     for c in callers.values():
